@@ -254,11 +254,57 @@ Batch genBatch(Rng& r, size_t maxPackets, bool allowHuge, bool allowUndefinedTyp
         }
         b.pkts.push_back(std::move(d));
     }
-    b.overload = static_cast<int>(r.below(7));
+    b.overload = static_cast<int>(r.below(8));
     if (b.overload == 3 && b.pkts.size() != 1)
         b.overload = 0;
     return b;
 }
+
+// a caller's forward iterator that does real work when it is dereferenced: it runs ANOTHER encoder (other ids, other
+// version, other message type, same frame size) to completion - CMP tunnelled in CMP builds its outer packets lazily from
+// an inner encoder's frames this way. The two encode() calls nest on one thread; they are separate objects.
+struct NestingIt
+{
+    using iterator_category = std::forward_iterator_tag;
+    using value_type = Packet;
+    using difference_type = std::ptrdiff_t;
+    using pointer = const Packet*;
+    using reference = const Packet&;
+    const std::vector<Packet>* v = nullptr;
+    size_t i = 0;
+    Encoder* inner = nullptr;
+    const Packet* probe = nullptr;
+    DataContext ctx;
+    mutable size_t lastNested = static_cast<size_t>(-1);
+    reference operator*() const
+    {
+        if (inner && lastNested != i)
+        {
+            lastNested = i;
+            inner->encode(*probe, ctx);
+        }
+        return (*v)[i];
+    }
+    NestingIt& operator++()
+    {
+        ++i;
+        return *this;
+    }
+    NestingIt operator++(int)
+    {
+        NestingIt t = *this;
+        ++i;
+        return t;
+    }
+    bool operator==(const NestingIt& o) const
+    {
+        return i == o.i;
+    }
+    bool operator!=(const NestingIt& o) const
+    {
+        return i != o.i;
+    }
+};
 
 std::vector<std::vector<uint8_t>> runEncode(Encoder& enc, const Batch& b)
 {
@@ -304,6 +350,27 @@ std::vector<std::vector<uint8_t>> runEncode(Encoder& enc, const Batch& b)
                 v.push_back(makePacket(d));
             const Packet* first = v.data();
             return enc.encode(first, first + v.size(), ctx);
+        }
+        case 7:
+        {
+            std::vector<Packet> v;
+            for (auto& d : b.pkts)
+                v.push_back(makePacket(d));
+            Encoder inner;
+            inner.setDeviceId(0x5A5A);
+            inner.setStreamId(0xA5);
+            static const uint8_t pl[] = {1, 2, 3, 4, 5, 6, 7, 8, 9};
+            Packet probe;
+            probe.setPayload(Payload(PayloadType(ASAM::CMP::CmpHeader::MessageType::status, 0x7E), pl, sizeof pl));
+            probe.setVersion(77);
+            probe.setVendorId(0xBEEF);
+            NestingIt first, last;
+            first.v = last.v = &v;
+            first.inner = &inner;
+            first.probe = &probe;
+            first.ctx = ctx;
+            last.i = v.size();
+            return enc.encode(first, last, ctx);
         }
         case 6:
         {
